@@ -282,6 +282,39 @@ pub fn run(ctx: &Ctx) -> i32 {
             }
             t.open(&s, "valid-magic-random-metadata", rng.chance(1, 8));
         }
+        // a few of them carried by a real file (OS seek semantics: huge offsets, negative seeks)
+        let path = std::env::temp_dir().join(format!("vh-c13m-{}-{}", std::process::id(), idx));
+        for j in 0..12 {
+            let v2 = j % 2 == 0;
+            let mut s = rng.bytes(rng.clone().range(0, 30));
+            let mut meta = Vec::new();
+            // index offset with high bits set, count anything, a known or unknown codec
+            meta.extend_from_slice(&(rng.next_u64() | if j % 3 == 0 { 1 << 63 } else { 0 }).to_le_bytes());
+            meta.push(rng.below(8) as u8);
+            meta.extend_from_slice(&rng.next_u64().to_le_bytes());
+            if v2 {
+                meta.push(rng.byte());
+            }
+            s.extend(meta);
+            s.extend_from_slice(&if v2 { MAGIC_V2 } else { MAGIC_V1 }.to_le_bytes());
+            if std::fs::write(&path, &s).is_err() {
+                break;
+            }
+            let expect = ends_with_valid_trailer(&s);
+            let r = guarded(|| std::fs::File::open(&path).map_err(grenad::Error::from).and_then(Reader::new).map(|_| ()));
+            ctx.count("opens", 1);
+            ctx.count("opens:random-metadata-on-disk", 1);
+            let bad = match &r {
+                Err(p) => Some(("open-panicked", format!("panic: {}", p))),
+                Ok(Ok(())) if !expect => Some(("accepted-without-valid-trailer", "Reader::new(File) returned Ok".to_string())),
+                Ok(Err(e)) if expect => Some(("rejected-valid-trailer", format!("Reader::new(File) returned Err({})", e))),
+                _ => None,
+            };
+            if let Some((sig, obs)) = bad {
+                ctx.violation(sig, "random-metadata", idx, J::obj().set("input_class", "valid magic + random metadata, on disk").set("input_len", s.len()).set("input_tail_hex", hex(&s[s.len().saturating_sub(30)..])).set("observed", obs));
+            }
+        }
+        let _ = std::fs::remove_file(&path);
         ctx.eval(crate::prng::mix(&[idx, 78]), true);
     });
     // exhaustive: all strings of length 0..=2 and all single trailing bytes after a valid prefix
